@@ -143,6 +143,7 @@ def main():
     ap.add_argument("--limit", type=int, default=100000)
     ap.add_argument("--tests", action="store_true")
     ap.add_argument("--only", default=None, help="substring of the file path")
+    ap.add_argument("--all-files", action="store_true", help="also mutate analysed functions outside the property's anchor files")
     args = ap.parse_args()
     pid = args.prop
     m = RepoModel()
@@ -150,9 +151,14 @@ def main():
     base = {o.key for o in ctx.obs if o.status == "violated"}
     jobs = []
     files = {}
+    anchors = set()
+    for l in open("/verif/properties.jsonl"):
+        pr = json.loads(l)
+        if pr["id"] == pid:
+            anchors = set(pr["anchors"]["files"])
     for q in sorted(ctx.analysed_functions):
         f = m.functions.get(q)
-        if f is None or f.parent is not None or (args.only and args.only not in f.file):
+        if f is None or f.parent is not None or (args.only and args.only not in f.file) or (not args.all_files and f.file not in anchors):
             continue
         src = files.setdefault(f.file, open(os.path.join(REPO, f.file), encoding="utf-8").read())
         raw = ast.parse(src)
@@ -175,30 +181,44 @@ def main():
     missed = by.get("missed", [])
     survivors = []
     if args.tests and missed:
-        wt = "/tmp/wt/MUT"
-        if not os.path.isdir(wt):
-            subprocess.run(f"git -C {REPO} worktree add -q --detach {wt}", shell=True, check=True)
-        for r in missed:
+        NW = 8
+        for k in range(NW):
+            wt = f"/tmp/wt/MUT{k}"
+            if not os.path.isdir(wt):
+                subprocess.run(f"git -C {REPO} worktree add -q --detach {wt}", shell=True, check=True)
+            subprocess.run(f"git -C {wt} checkout -q -- . && git -C {wt} checkout -q --detach $(git -C {REPO} rev-parse HEAD)", shell=True)
+        from concurrent.futures import ThreadPoolExecutor
+        import queue
+        pool = queue.Queue()
+        for k in range(NW):
+            pool.put(f"/tmp/wt/MUT{k}")
+
+        def run_tests(r):
             rel, kind, line, old, new, a, b = r[:7]
             tfs = test_files(rel)
             if not tfs:
-                survivors.append((r, "no test file"))
-                continue
-            subprocess.run(f"git -C {wt} checkout -q -- . && git -C {wt} checkout -q --detach $(git -C {REPO} rev-parse HEAD)", shell=True)
-            src = open(os.path.join(wt, rel), encoding="utf-8").read()
-            open(os.path.join(wt, rel), "w", encoding="utf-8").write(src[:a] + new + src[b:])
+                return (r, "no test file")
+            wt = pool.get()
             try:
-                t = subprocess.run(f"cd {wt} && PYTHONPATH={wt} timeout 240 /venv/bin/python -m pytest -x -q -p no:cacheprovider " + " ".join(tfs), shell=True, capture_output=True, text=True, timeout=300)
-                rc = t.returncode
-            except subprocess.TimeoutExpired:
-                rc = 124
-            if rc == 0:
-                survivors.append((r, "tests pass"))
-        subprocess.run(f"git -C {wt} checkout -q -- .", shell=True)
+                path = os.path.join(wt, rel)
+                orig = open(path, encoding="utf-8").read()
+                open(path, "w", encoding="utf-8").write(orig[:a] + new + orig[b:])
+                try:
+                    t = subprocess.run(f"cd {wt} && PYTHONPATH={wt} timeout 300 /venv/bin/python -m pytest -x -q -p no:cacheprovider " + " ".join(tfs), shell=True, capture_output=True, text=True, timeout=320)
+                    rc = t.returncode
+                except subprocess.TimeoutExpired:
+                    rc = 124
+                open(path, "w", encoding="utf-8").write(orig)
+                return (r, "tests pass") if rc == 0 else None
+            finally:
+                pool.put(wt)
+        with ThreadPoolExecutor(max_workers=NW) as tp:
+            survivors = [x for x in tp.map(run_tests, missed) if x]
     else:
         survivors = [(r, "") for r in missed]
     for r, why in survivors:
-        print(f"  {why or 'missed'}: {r[0]}:{r[2]} [{r[1]}] `{r[3][:50]}` -> `{r[4][:50]}`")
+        srcl = open(os.path.join(REPO, r[0]), encoding="utf-8").read().split("\n")[r[2] - 1].strip()
+        print(f"  {why or 'missed'}: {r[0]}:{r[2]} [{r[1]}] `{r[3][:40]}` -> `{r[4][:40]}`   | {srcl[:110]}")
     json.dump([list(map(str, r[:5])) + [w] for r, w in survivors], open(f"/tmp/mut_{pid}.json", "w"), indent=0)
 
 
